@@ -164,7 +164,8 @@ def run_bounded(prop, tier, seed, budget_s, extra_cases=()):
     else:
         ctx = mp.get_context("forkserver")
         with ctx.Pool(nproc, initializer=_worker_init) as pool:
-            it = pool.imap_unordered(_worker, [(prop, c) for c in cases], chunksize=1)
+            chunk = max(1, min(64, len(cases) // (nproc * 16)))
+            it = pool.imap_unordered(_worker, [(prop, c) for c in cases], chunksize=chunk)
             while True:
                 try:
                     remaining = budget_s - (time.time() - t0)
